@@ -8,7 +8,7 @@
    are decided by the child-process runs of harness/cmd/c05 (Check/C05.v). *)
 From Coq Require Import List NArith ZArith String Bool.
 From Verif Require Import Base.Hex Model.Layout Model.LayoutPrims Gen.PacketLayouts
-  Proofs.C04_layout Proofs.C04_prims Proofs.C04 Proofs.C05_layout Proofs.C05_prims Proofs.C05.
+  Proofs.C04_layout Proofs.C04_prims Proofs.GenLemmas Proofs.C05_layout Proofs.C05_prims Proofs.C05.
 Import ListNotations.
 Open Scope N_scope.
 
@@ -30,6 +30,10 @@ Print Assumptions C05_dec_L_alloc_generic.
 Theorem C05_primitives_alloc_ok : pfam_alloc_ok LP lp_ka.
 Proof. exact lp_alloc_ok. Qed.
 Print Assumptions C05_primitives_alloc_ok.
+
+(* obligation on the regenerated translation: every fragment decoder's layout is well formed *)
+Theorem C05_decoder_layouts_well_formed : not_wf = [].
+Proof. exact C05_wf. Qed.
 
 (* "for any payload ... decoding finishes": every fragment decoder, every registered context, every byte string *)
 Theorem C05_fragment_terminates :
